@@ -176,6 +176,12 @@ static std::vector<VecProfile> build_profiles() {
     VecProfile p = ps.back(); p.name = "growth_big"; p.bigAppend = 5000; p.room = 12000;
     ps.push_back(p);
   }
+  {  // growth to millions of elements (small trivially copyable element types only: the simulated heap holds 192 MiB)
+    VecProfile p; p.name = "growth_huge"; set_all(p, 0);
+    p.meanLen = 3; p.maxLen = 6; p.swarm = false; p.bigAppend = 3600000; p.room = 1300000;
+    p.w[V_APPEND_LOOP] = 60; p.w[V_RESERVE] = 6; p.w[V_SHRINK] = 10; p.w[V_CLEAR] = 4; p.w[V_PUSH_MOVE] = 6; p.w[V_CTOR_DEFAULT] = 6;
+    ps.push_back(p);
+  }
   // long variants (thorough tier): longer histories, larger containers
   size_t base = ps.size();
   for (size_t i = 0; i < base; ++i) {
@@ -380,7 +386,7 @@ struct Runner {
   // comparison with the model that records nothing (used to refine the attribution of an already recorded violation)
   bool soft_equal(Slot &s) {
     VecObs o = s.type->observe(s.obj);
-    if (o.size > o.capacity || o.size > (1u << 20)) return false;
+    if (o.size > o.capacity || o.size > (1u << 23)) return false;
     std::vector<Val> got;
     std::string err;
     if (!s.type->snapshot(s.obj, got, err)) return false;
@@ -777,7 +783,12 @@ struct Runner {
         if (((op.n >> 16) & 3) == 0) n = 1 + op.n % (big < 8 ? big : 8);
         size_t r2 = reachable ? (size_t)t.limit : (prof ? prof->room : 40) * 3;
         if (sz + n > r2) n = r2 > sz ? r2 - sz : 0;
-        if (payMod && n > 4000) n = 4000;
+        if (payMod && n > 4000 && big < 100000) n = 4000;
+        if (big >= 100000) {  // huge appends: keep the whole pool within what the simulated heap can hold
+          size_t tot = total_model_size();
+          if (tot + n > 3700000) n = tot < 3700000 ? 3700000 - tot : 0;
+          if (t.elemSize > 4 && n > 5000) n = 5000;  // larger elements would not fit the arena: ordinary sizes for them
+        }
         if (!n) return false;
         gen_vals(n);
         if (io.variant % 8 == 1) for (Val &v : io.vals) v = Val{0, 0};  // the resize(size()+1) method appends value-initialised elements
@@ -1160,7 +1171,12 @@ struct Runner {
         double n = (double)res.appended;
         unsigned bound = 2u * (unsigned)std::ceil(std::log2(n)) + 4u;
         uint64_t rbound = 8ull * (res.appended + sz0) + 64ull;  // O(n) amortised: a vector that already holds sz0 elements moves them too
-        if (res.growEvents > bound) {
+        if (res.growBadFrom) {
+          char m[200];
+          snprintf(m, sizeof m, "while appending %zu elements one by one the capacity grew from %zu to %zu: less than the constant factor 1.5", res.appended,
+                   res.growBadFrom, res.growBadTo);
+          G.violate(VK_GROWTH, P(18), m);
+        } else if (res.growEvents > bound) {
           char m[200];
           snprintf(m, sizeof m, "appending %zu elements one by one (start size %zu, capacity %zu) caused %u reallocations, bound 2*ceil(log2 n)+4 = %u",
                    res.appended, sz0, pre.capacity, res.growEvents, bound);
